@@ -126,6 +126,27 @@ fn grid_sources(thorough: bool) -> Vec<String> {
             }
         }
     }
+    // attributes that name no trait at all, at every position, alone and next to a real request
+    for item in GRID_ITEMS {
+        for pos in ["@T", "@V", "@F"] {
+            if !item.contains(pos) {
+                continue;
+            }
+            for form in ["#[educe()]", "#[educe{}]", "#[educe[]]", "#[educe(,)]", "#[educe]", "#[educe = \"x\"]", "#[educe()] #[educe()]", "#[educe(())]", "#[educe(unsafe)]", "#[educe(\"Debug\")]", "#[educe(1)]"] {
+                for with_real in [false, true] {
+                    let type_level = match (pos, with_real) {
+                        ("@T", false) => form.to_string(),
+                        ("@T", true) => format!("#[educe(Debug)] {form}"),
+                        (_, false) => String::new(),
+                        (_, true) => "#[educe(Debug)]".to_string(),
+                    };
+                    let mut src = if pos == "@T" { item.to_string() } else { item.replace(pos, form) };
+                    src = src.replace("@T", &type_level).replace("@V", "").replace("@F", "");
+                    v.push(src);
+                }
+            }
+        }
+    }
     v
 }
 
@@ -189,6 +210,7 @@ pub fn run(ctx: &Ctx) -> i32 {
         .collect();
     rep.count("expansions_that_killed_their_process", crash_candidates.len() as u64);
     let mut candidates: Vec<(usize, String)> = Vec::new();
+    let mut empty_ok: Vec<(String, Vec<u16>)> = Vec::new();
     let mut per_site: std::collections::BTreeMap<String, usize> = Default::default();
     for (i, r) in results.iter().enumerate() {
         rep.evaluations += 1;
@@ -208,6 +230,7 @@ pub fn run(ctx: &Ctx) -> i32 {
                     candidates.push((i, m.clone()));
                 }
             },
+            Expansion::Ok(t) if t == "<empty>" => empty_ok.push((r.src.clone(), dnas[i].clone())),
             _ => {},
         }
     }
@@ -248,7 +271,12 @@ pub fn run(ctx: &Ctx) -> i32 {
                 rep.count("grid_refused", 1);
                 rep.nontrivial.insert(fnv64(&grid[i]));
             },
-            Expansion::Ok(_) => rep.count("grid_accepted", 1),
+            Expansion::Ok(t) => {
+                rep.count("grid_accepted", 1);
+                if t == "<empty>" {
+                    empty_ok.push((grid[i].clone(), Vec::new()));
+                }
+            },
             Expansion::Unparsable(_) => rep.count("grid_not_a_derive_input", 1),
             Expansion::Panic(m) => {
                 let site = format!("grid:{}", panic_site(m));
@@ -261,6 +289,17 @@ pub fn run(ctx: &Ctx) -> i32 {
         }
     }
     rep.extra.insert("in_process_panic_sites".into(), json!(per_site));
+    // "either produces items or reports a diagnostic": an accepted request with an empty expansion is neither
+    rep.count("accepted_with_empty_expansion", empty_ok.len() as u64);
+    for (src, dna) in empty_ok.iter().take(8) {
+        rep.violations.push(Failure {
+            msg: "the macro accepts the request and generates nothing: neither items nor a diagnostic".into(),
+            dna: dna.clone(),
+            variant: "empty-ok".into(),
+            source: src.clone(),
+            unit_body: Some(format!("use educe::Educe;\n#[derive(Educe)]\n{src}\n")),
+        });
+    }
     // confirm candidates through the shipping macro
     let so = match engine::build_proc_macro() {
         Ok(s) => s,
